@@ -6,7 +6,7 @@ C=/tmp/b-$T/verif
 cd $C
 git checkout -q -- evidence 2>/dev/null || true
 git checkout -q -- MANIFEST.json 2>/dev/null || true
-git add -A -- . ":!seeded" ":!replays"
+git add -A -- . ":!seeded"
 git -c user.name=builder -c user.email=builder@example.invalid commit -qm "builder $T" || true
 cd /verif
 git pull --no-edit --no-rebase $C main 2>&1 | tail -15
